@@ -445,6 +445,50 @@ func c20GenCase(r *common.Rand) c20Case {
 				req.Modifications = append(req.Modifications, &btapb.ModifyColumnFamiliesRequest_Modification{Id: common.Pick(r, []string{"f1", "g"}), Mod: &btapb.ModifyColumnFamiliesRequest_Modification_Create{Create: &btapb.ColumnFamily{GcRule: hostileGc(r, 2)}}})
 			}
 		}
+		if r.Chance(1, 2) {
+			// several modifications of ONE family in one request, ill-typed ones included (drop=false is encodable: a
+			// bool inside a oneof is sent even when false; create/update without a body), against a table that is
+			// re-created first so that the family is there: validation and application must agree on what each means
+			fam := common.Pick(r, []string{"f1", "g"})
+			menu := []func() *btapb.ModifyColumnFamiliesRequest_Modification{
+				func() *btapb.ModifyColumnFamiliesRequest_Modification {
+					return &btapb.ModifyColumnFamiliesRequest_Modification{Id: fam, Mod: &btapb.ModifyColumnFamiliesRequest_Modification_Drop{Drop: false}}
+				},
+				func() *btapb.ModifyColumnFamiliesRequest_Modification {
+					return &btapb.ModifyColumnFamiliesRequest_Modification{Id: fam, Mod: &btapb.ModifyColumnFamiliesRequest_Modification_Drop{Drop: true}}
+				},
+				func() *btapb.ModifyColumnFamiliesRequest_Modification {
+					return &btapb.ModifyColumnFamiliesRequest_Modification{Id: fam, Mod: &btapb.ModifyColumnFamiliesRequest_Modification_Update{Update: &btapb.ColumnFamily{GcRule: drive.GcToProto(c14RandGc(r))}}}
+				},
+				func() *btapb.ModifyColumnFamiliesRequest_Modification {
+					return &btapb.ModifyColumnFamiliesRequest_Modification{Id: fam, Mod: &btapb.ModifyColumnFamiliesRequest_Modification_Update{}}
+				},
+				func() *btapb.ModifyColumnFamiliesRequest_Modification {
+					return &btapb.ModifyColumnFamiliesRequest_Modification{Id: fam, Mod: &btapb.ModifyColumnFamiliesRequest_Modification_Create{Create: &btapb.ColumnFamily{}}}
+				},
+				func() *btapb.ModifyColumnFamiliesRequest_Modification {
+					return &btapb.ModifyColumnFamiliesRequest_Modification{Id: fam, Mod: &btapb.ModifyColumnFamiliesRequest_Modification_Create{}}
+				},
+				func() *btapb.ModifyColumnFamiliesRequest_Modification {
+					return &btapb.ModifyColumnFamiliesRequest_Modification{Id: fam}
+				},
+			}
+			seq := &btapb.ModifyColumnFamiliesRequest{Name: drive.TableName(drive.Parent, "fz3")}
+			for i, n := 0, r.Range(2, 4); i < n; i++ {
+				seq.Modifications = append(seq.Modifications, menu[r.Intn(len(menu))]())
+			}
+			return c20Case{fmt.Sprintf("re-create fz3{f1,g}; ModifyColumnFamilies %v; GetTable", seq), func(ctx context.Context, s *drive.Srv) error {
+				s.Admin.DeleteTable(ctx, &btapb.DeleteTableRequest{Name: seq.Name})
+				if _, err := s.Admin.CreateTable(ctx, &btapb.CreateTableRequest{Parent: drive.Parent, TableId: "fz3", Table: &btapb.Table{ColumnFamilies: map[string]*btapb.ColumnFamily{"f1": {}, "g": {}}}}); err != nil {
+					return err
+				}
+				_, err := s.Admin.ModifyColumnFamilies(ctx, seq)
+				if _, gerr := s.Admin.GetTable(ctx, &btapb.GetTableRequest{Name: seq.Name}); gerr != nil {
+					return gerr
+				}
+				return err
+			}}
+		}
 		return c20Case{fmt.Sprintf("ModifyColumnFamilies %v", req), func(ctx context.Context, s *drive.Srv) error {
 			_, err := s.Admin.ModifyColumnFamilies(ctx, req)
 			return err
